@@ -583,6 +583,19 @@ def m_auth(hist, rec):
     # C10
     if cfg(b)["stopped"] and var in HALTED_VARIANTS and c["outcome"] != "err":
         report(hist, "C10", "halted_blocks", {"variant": var, "outcome": c["outcome"]}, "%s did not fail while halted" % var, rec)
+    # the halted state as the *history* defines it (a new contract is halted; a committed CircuitBreaker halts, a
+    # committed ResumeContract resumes; nothing else does), not as the contract's own flag reports it
+    halted_h = getattr(hist, "halted_by_history", True)
+    if halted_h and var in HALTED_VARIANTS and c["outcome"] != "err":
+        report(hist, "C10", "halted_blocks", {"variant": var, "outcome": c["outcome"], "by": "history"},
+               "%s did not fail although the contract was halted (at start or by CircuitBreaker) and never resumed" % var, rec)
+    if rec["committed"] and a is not None and cfg(a) is not None and cfg(a)["stopped"] != cfg(b)["stopped"] \
+            and var not in ("circuit_breaker", "resume_contract"):
+        report(hist, "C10", "flag_frame", {"variant": var}, "%s changed the halted flag from %s to %s" % (var, cfg(b)["stopped"], cfg(a)["stopped"]), rec)
+    if ok and rec["committed"] and var == "circuit_breaker":
+        hist.halted_by_history = True
+    if ok and rec["committed"] and var == "resume_contract":
+        hist.halted_by_history = False
     if ok and var == "circuit_breaker":
         ca, cb = dict(cfg(a)), dict(cfg(b))
         ca.pop("stopped"), cb.pop("stopped")
